@@ -793,6 +793,11 @@ func (o *orbitDB) createStore(ctx context.Context, storeType string, parsedDBAdd
 		o.deleteStore(parsedDBAddress.String())
 	}
 
+	// the constructor subscribes the store to its topic; a peer that sees it join
+	// sends its heads over the direct channel at once, possibly before the
+	// constructor has returned: the lookup of monitorDirectChannel waits until the
+	// store is registered instead of dropping those heads as "store not found"
+	o.muStores.Lock()
 	store, err := storeFunc(o.IPFS(), identity, parsedDBAddress, &iface.NewStoreOptions{
 		EventBus:          options.EventBus,
 		AccessController:  accessController,
@@ -812,10 +817,12 @@ func (o *orbitDB) createStore(ctx context.Context, storeType string, parsedDBAdd
 		CloseFunc:         closeFunc,
 	})
 	if err != nil {
+		o.muStores.Unlock()
 		return nil, fmt.Errorf("unable to instantiate store: %w", err)
 	}
 
-	o.setStore(parsedDBAddress.String(), store)
+	o.stores[parsedDBAddress.String()] = store
+	o.muStores.Unlock()
 
 	return store, nil
 }
